@@ -273,3 +273,183 @@ func VH_C08_CompactCacheTransparent() {
 	vhAssert(ws == nil && cs == nil, "both structurally valid")
 	vhReach("compact-cache-done")
 }
+
+// The warm/cold differential on a THREE-level array (real codec): 60 elements
+// of 100 bytes at slab size 256 (more than 26 leaves, so index slabs below the
+// root), committed; the cold run continues from a fresh storage over the
+// ledger. One operation at a chosen position (removal, shrinking or growing
+// overwrite, insertion) runs on both; both stay valid, agree element by
+// element, and commit to byte-identical registers; a brand-new storage over the
+// cold ledger reads the same content.
+//
+//vh:prop C08 C03
+//vh:init cbor
+//vh:sched first
+//vh:param deepn 60 70
+func VH_C08_DeepReload() {
+	vhSetThreshold(256)
+	n := vhParam("deepn", 60)
+	mk := func() *vhC08Run {
+		r := &vhC08Run{base: newVBase()}
+		r.st = vhNewPersistentB(r.base)
+		a, _ := NewArray(r.st, vhAddr(1), vTypeInfo{id: 42})
+		for i := 0; i < n; i++ {
+			_ = a.Append(vBlob{n: 97})
+		}
+		r.a = a
+		return r
+	}
+	warm, cold := mk(), mk()
+	rootID := warm.a.SlabID()
+	root, isMeta := warm.a.root.(*ArrayMetaDataSlab)
+	vhAssert(isMeta, "root is an index slab")
+	if isMeta {
+		_, childIsMeta := func() (Slab, bool) {
+			s, _, _ := warm.st.Retrieve(root.childrenHeaders[0].slabID)
+			_, ok := s.(*ArrayMetaDataSlab)
+			return s, ok
+		}()
+		vhAssert(childIsMeta, "three levels")
+	}
+	vhAssert(cold.st.FastCommit(1) == nil, "commit")
+	vhAssert(warm.st.FastCommit(1) == nil, "commit (warm keeps its cache)")
+	cold.st = vhNewPersistentB(cold.base)
+	ca, err := NewArrayWithRootID(cold.st, rootID)
+	vhAssert(err == nil, "reopen from ledger")
+	if err != nil {
+		return
+	}
+	cold.a = ca
+	// positions next to leaf / index-slab boundaries
+	positions := []int{0, 1, 2, n / 2, n/2 + 1, n - 2, n - 1}
+	pos := uint64(positions[vhChoose("pos", len(positions))])
+	op := vhChoose("op", 4)
+	for _, r := range []*vhC08Run{warm, cold} {
+		switch op {
+		case 0:
+			_, err := r.a.Remove(pos)
+			vhAssert(err == nil, "remove")
+		case 1:
+			_, err := r.a.Set(pos, vBlob{n: 1})
+			vhAssert(err == nil, "shrinking overwrite")
+		case 2:
+			_, err := r.a.Set(pos, vBlob{n: 110})
+			vhAssert(err == nil, "growing overwrite")
+		case 3:
+			vhAssert(r.a.Insert(pos, vBlob{n: 105}) == nil, "insert")
+		}
+	}
+	vhAssert(warm.a.Count() == cold.a.Count(), "same count")
+	ws := VerifyArray(warm.a, vhAddr(1), vTypeInfo{id: 42}, vhTic, vhHipB, true)
+	cs := VerifyArray(cold.a, vhAddr(1), vTypeInfo{id: 42}, vhTic, vhHipB, true)
+	vhAssert(ws == nil && cs == nil, "both structurally valid")
+	vhAssert(warm.st.FastCommit(1) == nil, "final commit (warm)")
+	vhAssert(cold.st.FastCommit(1) == nil, "final commit (cold)")
+	vhSameRegisters(warm.base, cold.base, "final ledger")
+	// a brand-new storage over the cold ledger
+	st3 := vhNewPersistentB(cold.base)
+	a3, err := NewArrayWithRootID(st3, rootID)
+	vhAssert(err == nil, "reopen after the final commit")
+	if err == nil {
+		vhAssert(a3.Count() == warm.a.Count(), "reopened count")
+		vhAssert(VerifyArray(a3, vhAddr(1), vTypeInfo{id: 42}, vhTic, vhHipB, true) == nil, "reopened array valid")
+		for i := uint64(0); i < a3.Count(); i++ {
+			x, e1 := a3.Get(i)
+			y, e2 := warm.a.Get(i)
+			vhAssert(e1 == nil && e2 == nil, "get")
+			if e1 == nil && e2 == nil {
+				vhAssert(x.(vBlob).n == y.(vBlob).n, "reopened content equals the warm content")
+			}
+		}
+	}
+	vhReach("deep-reload-done")
+}
+
+// The same differential on a THREE-level map (real codec, real hashing): 64
+// keys with 80-byte values at slab size 256, committed, continued cold from a
+// fresh storage; one operation (insert of a new key, overwrite with a value of
+// another size, removal) on both; same results, both valid, byte-identical
+// registers, and a brand-new storage reads the same dictionary with the same
+// element count.
+//
+//vh:prop C08 C03 C02
+//vh:init cbor
+//vh:sched first
+//vh:param deepkeys 64 72
+func VH_C08_DeepMapReload() {
+	vhSetThreshold(256)
+	n := vhParam("deepkeys", 64)
+	type run struct {
+		base *vBase
+		st   *PersistentSlabStorage
+		m    *OrderedMap
+	}
+	mk := func() *run {
+		r := &run{base: newVBase()}
+		r.st = vhNewPersistentB(r.base)
+		r.m, _ = NewMap(r.st, vhAddr(1), NewDefaultDigesterBuilder(), vTypeInfo{id: 42})
+		for i := 0; i < n; i++ {
+			_, _ = r.m.Set(vhCompareBK, vhHipB, vBKey{val: uint64(i + 1)}, vBlob{n: 80})
+		}
+		return r
+	}
+	warm, cold := mk(), mk()
+	rootID := warm.m.SlabID()
+	root, isMeta := warm.m.root.(*MapMetaDataSlab)
+	vhAssert(isMeta, "root is an index slab")
+	if isMeta {
+		s, _, _ := warm.st.Retrieve(root.childrenHeaders[0].slabID)
+		_, childIsMeta := s.(*MapMetaDataSlab)
+		vhAssert(childIsMeta, "three levels")
+	}
+	vhAssert(cold.st.FastCommit(1) == nil, "commit")
+	vhAssert(warm.st.FastCommit(1) == nil, "commit (warm keeps its cache)")
+	cold.st = vhNewPersistentB(cold.base)
+	cm, err := NewMapWithRootID(cold.st, rootID, NewDefaultDigesterBuilder())
+	vhAssert(err == nil, "reopen from ledger")
+	if err != nil {
+		return
+	}
+	cold.m = cm
+	keys := []uint64{1, 2, uint64(n / 2), uint64(n - 1), uint64(n)}
+	k := keys[vhChoose("key", len(keys))]
+	op := vhChoose("op", 4)
+	want := n
+	for _, r := range []*run{warm, cold} {
+		switch op {
+		case 0:
+			_, _, err := r.m.Remove(vhCompareBK, vhHipB, vBKey{val: k})
+			vhAssert(err == nil, "remove")
+		case 1:
+			_, err := r.m.Set(vhCompareBK, vhHipB, vBKey{val: k}, vBlob{n: 1})
+			vhAssert(err == nil, "shrinking overwrite")
+		case 2:
+			_, err := r.m.Set(vhCompareBK, vhHipB, vBKey{val: k}, vBlob{n: 95})
+			vhAssert(err == nil, "growing overwrite")
+		case 3:
+			old, err := r.m.Set(vhCompareBK, vhHipB, vBKey{val: 1000 + k}, vBlob{n: 40})
+			vhAssert(err == nil && old == nil, "insert of a new key")
+		}
+	}
+	if op == 0 {
+		want = n - 1
+	}
+	if op == 3 {
+		want = n + 1
+	}
+	vhAssert(warm.m.Count() == uint64(want) && cold.m.Count() == uint64(want), "count follows the operation")
+	ws := VerifyMap(warm.m, vhAddr(1), vTypeInfo{id: 42}, vhTic, vhHipB, true)
+	cs := VerifyMap(cold.m, vhAddr(1), vTypeInfo{id: 42}, vhTic, vhHipB, true)
+	vhAssert(ws == nil && cs == nil, "both structurally valid")
+	vhAssert(warm.st.FastCommit(1) == nil, "final commit (warm)")
+	vhAssert(cold.st.FastCommit(1) == nil, "final commit (cold)")
+	vhSameRegisters(warm.base, cold.base, "final ledger")
+	st3 := vhNewPersistentB(cold.base)
+	m3, err := NewMapWithRootID(st3, rootID, NewDefaultDigesterBuilder())
+	vhAssert(err == nil, "reopen after the final commit")
+	if err == nil {
+		vhAssert(m3.Count() == uint64(want), "reopened map reports the element count it had at commit time")
+		vhAssert(VerifyMap(m3, vhAddr(1), vTypeInfo{id: 42}, vhTic, vhHipB, true) == nil, "reopened map valid")
+	}
+	vhReach("deep-map-reload-done")
+}
